@@ -22,9 +22,29 @@ def ghost_cfg(S, env):
 
 
 def add_parallel_contracts(reg):
-    """contracts of the block-distribution helpers (proved under C20) for use at call sites"""
+    """contracts of the block-distribution helpers (proved under C20) for use at call sites, and the ghost protocol of
+    distributed loops: an array written inside a loop over a block-distributed range is a per-process partial result
+    until it has passed through DistributedConfiguration.allreduce; closing the parallel region with partial results
+    outstanding is a failed obligation (the sum over ranks would never be formed: C20 'sum-reduced results equal the
+    serial result')"""
     from props import C20
     C20.contracts(reg)
+
+    def protocol(ex, finfo, args, kwargs, bound, line):
+        if finfo.name == "allreduce" and finfo.cls is not None and finfo.cls.name == "DistributedConfiguration":
+            part = ex.__dict__.get("partial_results", {})
+            a = args[0] if args else kwargs.get("A")
+            while getattr(a, "base", None) is not None:
+                a = a.base
+            part.pop(id(a), None)
+        elif finfo.name == "close_parallel_region" and finfo.cls is None:
+            part = ex.__dict__.get("partial_results", {})
+            for k, (a, nm, ln) in list(part.items()):
+                ex.oblige("distributed-results-reduced-before-the-region-is-closed:%s@%s" % (nm, ln), False, "protocol", line)
+            part.clear()
+        return None
+    if not any(getattr(h, "__name__", "") == "protocol" for h in reg.models.hooks_call):
+        reg.models.hooks_call.append(protocol)
 
 
 def plain_basis_properties(models):
